@@ -47,7 +47,7 @@ class Abbreviation:
         self.children = []
 
 class AbbreviationNode:
-    __slots__ = ('type', 'name', 'value', 'repeat', 'attributes', 'children', 'self_closing')
+    __slots__ = ('type', 'name', 'value', 'repeat', 'attributes', 'children', 'self_closing', '__weakref__')
 
     def __init__(self, node: TokenElement, state: ConvertState):
         self.type = 'AbbreviationNode'
